@@ -167,6 +167,11 @@ func c19Boundary(p netip.Prefix, rng *verifkit.Rand) netip.Addr {
 	default:
 		v = uint32(uint64(first) + uint64(rng.U64()%size))
 	}
+	if byte(v>>24) != 127 {
+		// never aim outside loopback: a short prefix (0.0.0.0/1, 126.0.0.0/7, ...) may permit it and
+		// the exit would then really dial a non-loopback address
+		return c19RandV4(rng)
+	}
 	return netip.AddrFrom4([4]byte{byte(v >> 24), byte(v >> 16), byte(v >> 8), byte(v)})
 }
 
